@@ -55,6 +55,11 @@ func (m *ClientMon) Step(w *World, _ string) {
 	cur := map[string]subCBs{}
 	for _, cs := range w.ConnSnaps() {
 		for _, sub := range cs.Subs {
+			// the references through which a resource has been sent are among the
+			// references to it
+			if sub.State != 0 && (sub.IndirectSent < 0 || sub.IndirectSent > sub.Indirect) {
+				w.Fail("C02", "sent-count-out-of-range", "%s: subscription %s counts %d sent references out of %d references", w.label(cs.CID), sub.RID, sub.IndirectSent, sub.Indirect)
+			}
 			if sub.State != 0 {
 				cur[cs.CID+" "+sub.RID] = subCBs{sub.ReadyCBs, sub.AccessCBs}
 			}
